@@ -324,6 +324,50 @@ def stepPinned (c : Cache K) : Op K → Cache K × Out K
       let st := pivotFrom A r.1
       (cachePut r.2 A.length st.p, (luSolve st.mp b).map (fun x => [x]))
 
+/-! ### the inputs the implementation accepts (everything else makes it raise `ValueError` / `IndexError`,
+    or - `matrix_pivot` on rows longer than `n` - is outside what the model mirrors)
+
+These predicates are NOT tested inside `luSolve`, `matrixPivot`, … (which pad missing entries with `0`
+and would "return" something on a non-square input); they are the explicit hypotheses of the C16
+theorems, and the driver answers `ERR` exactly when they fail (`Drv.opOk`, proved equal in `Props/C16`). -/
+
+/-- every row has at least `c` entries (Python reads `row[j]` for `j < c`) -/
+def rowsAtLeast (A : List (List K)) (c : Nat) : Bool := A.all (fun r => decide (c ≤ r.length))
+
+/-- `lu_solve(A, b)` gets past its non-arithmetic checks: `lu_decomposition` accepts `A` (square: every row has
+    `len(A)` entries), `b[0]` exists, `forward_substitution` reads `L[i][j]` for `i < len(b)` only
+    (`len(b) ≤ len(A)`), and `[b1[i] for b1 in b]`, `i < len(b[0])`, finds every entry -/
+def luSolveOk (A b : List (List K)) : Bool :=
+  isSquare A && decide (0 < b.length) && decide (b.length ≤ A.length) && rowsAtLeast b (b.headD []).length
+
+/-- `lu_factor(A, b)`: `A` square, `b` a non-empty rectangular table with `len(A)` rows (`matrix_multiply(p, b)`) -/
+def luFactorOk (A b : List (List K)) : Bool :=
+  isSquare A && decide (0 < b.length) && decide (b.length = A.length) && isRect b (b.headD []).length
+
+/-- `matrix_inverse(m)`: `m` square and not empty (`lu_solve(mp, p)` reads `p[0]`) -/
+def matrixInverseOk (m : List (List K)) : Bool := isSquare m && decide (0 < m.length)
+
+/-- `matrix_multiply(mat1, mat2)`, matrix–matrix branch: both non-empty, `len(mat1[0]) = len(mat2)` (otherwise
+    `GeomdlException("Column - row size mismatch")`), and the loops find `mat1[i][k]`, `k < len(mat2)`, and
+    `mat2[k][j]`, `j < len(mat2[0])` -/
+def matrixMultiplyOk (a b : List (List K)) : Bool :=
+  !a.isEmpty && !b.isEmpty && (a.headD []).length == b.length && rowsAtLeast a b.length
+    && rowsAtLeast b (b.headD []).length
+
+/-- `matrix_multiply(mat1, vec)`, matrix–vector branch -/
+def matrixVectorOk (a : List (List K)) (v : List K) : Bool :=
+  !a.isEmpty && !v.isEmpty && (a.headD []).length == v.length && rowsAtLeast a v.length
+
+/-- the guard of a public call: the call raises for a reason other than a zero pivot (or, for `matrix_pivot`
+    with rows longer than `n`, exchanges only the first `n` entries, which the model does not mirror) iff this is `false` -/
+def admissible : Op K → Bool
+  | .identity _ => true
+  | .pivot m => isSquare m
+  | .inverse m => matrixInverseOk m
+  | .det m => isSquare m
+  | .luSolve A b => luSolveOk A b
+  | .luFactor A b => luFactorOk A b
+
 /-- a history of calls: the list of results, threading the cache -/
 def runWith (step : Cache K → Op K → Cache K × Out K) : Cache K → List (Op K) → List (Out K)
   | _, [] => []
